@@ -10,12 +10,14 @@
    site propagated alone) applies the tensor product of the local propagators to the train: every entry of the new train is
    sum over input tuples of  prod K_i[(x_i x_i+1),(y_i y_i+1)] * (old entry)  -- any chain length, dimensions, ranks, parity
    (SVD value conjunct per consumed answer); a step is the composition of its stages in the regenerated order.
-   PARTIAL: the composition of the stage values into one dense product over a whole step (immediate, not formalised) and the
-   global orders 1, 2, 4, >= 6 (BCH / composition theory) are covered by model + oracle-tape
+   (4) STEP VALUE: a step (any sequence of stages, each with its own propagators, parity and SVD answers) applies the ORDERED
+   PRODUCT of the stage operators to the train (C10_step_value; the shape invariants that let the stages be chained are
+   C10_stage_shape).
+   PARTIAL: the global orders 1, 2, 4, >= 6 (BCH / composition theory) are covered by model + oracle-tape
    correspondence + side check (dense expm products, observed orders, norm preservation). *)
 From Coq Require Import Reals QArith ZArith List Lia Arith.
 Import ListNotations.
-Require Import Ring Sums Matrix Core Chain Sweep SweepProof Splitting SplitProof StageProof.
+Require Import Ring Sums Matrix Core Chain Sweep SweepProof Splitting SplitProof StageProof StepProof.
 Require Import SkTT.Gen.SplittingCoeffs SkTT.Proofs.SplitCoeffProof.
 
 Theorem C10_pair_update (R : cring) idx (a : svd_ans R) (K : M R) (c c1 : core R) al x1 x2 b :
@@ -33,6 +35,45 @@ Theorem C10_stage_value (R : cring) thr maxr (Ks : list (M R)) even fuel pos ans
   msum (rows cs) (fun ys => (Wst Ks even fuel pos (rows cs) xs ys * chain cs ys (StageProof.zeros (length cs)) a b)%cr).
 Proof. exact (stage_value thr maxr Ks even fuel pos answers cs xs a b fin). Qed.
 Print Assumptions C10_stage_value.
+
+(* a stage keeps the row dimensions, the linked ranks and the left rank (what the next stage needs) *)
+Theorem C10_stage_shape (R : cring) thr maxr (Ks : list (M R)) even fuel pos answers (cs : list (core R)) fin :
+  stage_hyp thr maxr Ks even fuel pos answers cs -> stage_pos thr maxr even fuel pos answers cs -> linked cs fin ->
+  rows (stage_cores thr maxr Ks even fuel pos answers cs) = rows cs /\
+  linked (stage_cores thr maxr Ks even fuel pos answers cs) fin /\
+  rl_of (stage_cores thr maxr Ks even fuel pos answers cs) fin = rl_of cs fin.
+Proof. exact (stage_shape thr maxr Ks even fuel pos answers cs fin). Qed.
+Print Assumptions C10_stage_shape.
+
+(* a whole step = the ordered product of its stage operators, applied to the train *)
+Theorem C10_step_value (R : cring) thr maxr fuel (sts : list (@stage_desc R)) (cs : list (core R)) xs a b fin :
+  (length cs < fuel)%nat -> step_hyp thr maxr fuel sts cs ->
+  linked cs fin -> below xs (rows cs) -> (a < rl_of cs fin)%nat -> (b < fin)%nat ->
+  chain (run_step thr maxr fuel sts cs) xs (StageProof.zeros (length cs)) a b =
+  msum (rows cs) (fun ys => (Wstep fuel sts (rows cs) xs ys * chain cs ys (StageProof.zeros (length cs)) a b)%cr).
+Proof. exact (step_value thr maxr fuel sts cs xs a b fin). Qed.
+Print Assumptions C10_step_value.
+
+(* non-vacuity: two sites (dimensions 1 and 2), an even stage with K = [[1,2],[3,4]] whose SVD answer is the trivial exact one
+   (U = the matrix, s = 1, V = I), followed by an odd stage (last site alone, K' = [[0,1],[1,0]]); the hypotheses hold and the
+   new train has the entries K' K x *)
+Definition exK : M Zring := fun i j => match i, j with 0%nat, 0%nat => 1 | 0%nat, 1%nat => 2 | 1%nat, 0%nat => 3 | 1%nat, 1%nat => 4 | _, _ => 0 end%Z.
+Definition exK' : M Zring := fun i j => if Nat.eqb (i + j) 1 then 1%Z else 0%Z.
+Definition exc0 : core Zring := @mkcore Zring 1 1 1 1 (fun _ _ _ _ => 1%Z).
+Definition exc1 : core Zring := @mkcore Zring 1 2 1 1 (fun _ x _ _ => if Nat.eqb x 0 then 5%Z else 7%Z).
+Definition exA10 : svd_ans Zring := @mkans Zring 2 (pair_matrix exK exc0 exc1) (fun _ => 1%Z) (fun p q => if Nat.eqb p q then 1%Z else 0%Z).
+Definition exsts : list (@stage_desc Zring) := [([exK; exK'], true, [exA10]); ([exK; exK'], false, [])].
+Example ex_step_hyp : step_hyp None None 3 exsts [exc0; exc1] /\ linked [exc0; exc1] 1%nat.
+Proof.
+  split; [|cbn; lia].
+  cbn [exsts step_hyp]. split; [|split].
+  - cbn. split; [|exact I]. intros r b Hr Hb. destruct r as [|r]; [|lia]. destruct b as [|[|b]]; try lia; vm_compute; reflexivity.
+  - cbn. split; [discriminate|exact I].
+  - cbn. auto.
+Qed.
+Example ex_step_entries :
+  map (fun x => chain (run_step None None 3 exsts [exc0; exc1]) [0%nat; x] [0%nat; 0%nat] 0%nat 0%nat) [0%nat; 1%nat] = [43%Z; 19%Z].
+Proof. vm_compute. reflexivity. Qed.
 
 Theorem C10_lie_coefficients : lie_stages = [(0, true); (0, false)]%nat /\
   Qeq_bool (fst (nth 0 lie_sets (0, 0)%Q)) 1 = true /\ Qeq_bool (snd (nth 0 lie_sets (0, 0)%Q)) 1 = true.
